@@ -21,7 +21,7 @@ and the representation invariant `Good s`:
 
 Copies: `copies_bind_by_name` (any interleaving of assignments to several live instances and `copy.deepcopy`),
 `restore_preserves_abs`, `setstate_rebuild_counterexample`.
-Value coincidences: `early_exit_input_order_counterexample`.
+Value coincidences: `early_exit_input_order_counterexample`.  Value scales: `early_exit_close_values_counterexample`.
 -/
 import Pygom.Lemmas.Params
 
@@ -789,6 +789,36 @@ theorem early_exit_input_order_counterexample :
     ∧ (stepEarlyExit s1 op1).1.pv = [4, 2, 1]
     -- an assignment whose values differ from the held ones in input order takes the ordinary path
     ∧ (stepEarlyExit s0 (.pairs [(.str "gamma", 7), (.str "beta", 2), (.str "mu", 1)])).1.pv = [2, 7, 1] := by
+  decide
+
+/-- The setter with a "nothing changed" early exit on CLOSENESS (seeded change `C09-d1`:
+`if np.allclose(param_value, self._paramValue): return` after the value vector has been resolved by name).  `close` is any
+tolerance relation on values; on the fast path neither `_parameters` nor `_paramValue` is touched. -/
+def stepEarlyExitClose {V : Type} [Zero V] (close : V → V → Bool) (s : State V) (op : Op V) : State V × Option Err :=
+  let r := step true s op
+  match r.2, s.dict with
+  | Option.none, some _ =>
+      if (r.1.pv.length == s.pv.length) && (List.zipWith close r.1.pv s.pv).all id then (s, Option.none) else r
+  | _, _ => r
+
+/-- **a "nothing changed" early exit that compares VALUES UP TO A TOLERANCE**: whatever the tolerance, an assignment that moves
+every parameter by less than it is dropped although the setter as written (and the spec) bind the new value.  Here (values in
+`Int`, tolerance 1): the model holds beta=4, gamma=2000; `{beta: 5}` and the full list `[3, 2001]` are dropped, `{beta: 0}` is
+not.  The binding theorems hold for EVERY value and every size of change because the setter never compares values; the
+harness probes the real setter on value scales (`stream:scale` cases of harness/props/c09.py: per-capita rates of 1e-9,
+changes of 1 part in 1e6 .. 1 ulp, to and from exactly 0). -/
+theorem early_exit_close_values_counterexample :
+    let params := ["beta", "gamma"]
+    let close : Int → Int → Bool := fun a b => decide ((a - b).natAbs ≤ 1)
+    let s0 := run true (init (V := Int) params) [.nums [4, 2000]]
+    let op : Op Int := .dict [(.str "beta", some 5)]
+    (step true s0 op).1.pv = [5, 2000]
+    ∧ params.map (specRun params (fun _ => 0) [.nums [4, 2000], op]) = [5, 2000]
+    ∧ (stepEarlyExitClose close s0 op).1.pv = [4, 2000]
+    ∧ (stepEarlyExitClose close s0 (.nums [3, 2001])).1.pv = [4, 2000]
+    ∧ (step true s0 (.nums [3, 2001])).1.pv = [3, 2001]
+    -- a change larger than the tolerance takes the ordinary path
+    ∧ (stepEarlyExitClose close s0 (.dict [(.str "beta", some 0)])).1.pv = [0, 2000] := by
   decide
 
 /-! ## the code as written is not atomic: counterexamples (values in `Int`, by evaluation) -/
